@@ -36,6 +36,21 @@ func init() {
 		}
 		o.def("datasetPartitionMetaShared", "Bool", lbool(shared), "newDataset stores &meta and builds each partition from meta.Partitions[i] of that same value")
 
+		// C10/C14: the catalogue snapshot carries every dataset's metadata verbatim (the partition list
+		// in catalogue order — its order is part of the routing function) and processSnapshot builds
+		// the dataset from exactly that value
+		dmf := parseFile("storage/dataset_manager.go")
+		verbatim := false
+		if sn, ps := funcDecl(dmf, "DatasetManager", "snapshot"), funcDecl(dmf, "DatasetManager", "processSnapshot"); sn != nil && ps != nil {
+			a, b := norm(sn.Body), norm(ps.Body)
+			verbatim = strings.Contains(a, "for_,dataset:=rangethis.datasets{datasets[i]=dataset.Meta()i++}") &&
+				strings.Contains(a, "returnproto.Marshal(&pb.DatasetManagerSnapshot{Datasets:datasets})") &&
+				!strings.Contains(a, "sort.") && !strings.Contains(a, "Partitions") &&
+				strings.Contains(b, "for_,dataset:=rangedmSnapshot.Datasets{") &&
+				strings.Contains(b, "newDataset(id,*dataset,") && !strings.Contains(b, "sort.") && !strings.Contains(b, "Partitions")
+		}
+		o.def("catalogueSnapshotVerbatim", "Bool", lbool(verbatim), "DatasetManager.snapshot marshals each dataset.Meta() as it is and processSnapshot passes each restored value to newDataset unchanged (no reordering of partitions)")
+
 		g := parseFile("storage/raft/group.go")
 		run := funcDecl(g, "RaftGroup", "run")
 		inline := false
